@@ -59,6 +59,73 @@ func caseGen() *rapid.Generator[Case] {
 
 func TestProp(t *testing.T) { prop.Rapid(t, caseGen()) }
 
+// seqGen: histories with renders interleaved, all on the same table, wrappers reused or fresh.
+func seqGen() *rapid.Generator[Case] {
+	sg := gen.ScriptGen(gen.ScriptOpts{
+		Item:        itemGen(),
+		MinOps:      1,
+		MaxOps:      16,
+		MaxCells:    4,
+		HeavyTail:   12,
+		MultiHdr:    true,
+		AllowMutate: true,
+		Creators:    []string{"core", "core", "csv", "texttable", "markdown", "auto:none"},
+	})
+	return rapid.Custom(func(t *rapid.T) Case {
+		c := Case{Script: sg.Draw(t, "script")}
+		palette := rapid.SliceOfN(rapid.SampledFrom(Styles), 1, 3).Draw(t, "palette")
+		n := rapid.IntRange(2, 8).Draw(t, "renders")
+		for i := 0; i < n; i++ {
+			c.Seq = append(c.Seq, RenderAt{At: rapid.IntRange(0, len(c.Script.Ops)).Draw(t, "at"), Style: rapid.SampledFrom(palette).Draw(t, "style"),
+				Auto: rapid.IntRange(0, 3).Draw(t, "auto") == 0, Reuse: rapid.Bool().Draw(t, "reuse")})
+		}
+		return c
+	})
+}
+
+func TestPropSeq(t *testing.T) { prop.Rapid(t, seqGen()) }
+
+// TestEnumSeq: every history of up to VERIF_C09_SEQ_LEN symbols, then every ordered triple of styles from a
+// reduced set rendered one after the other on the same table through reused wrappers.
+func TestEnumSeq(t *testing.T) {
+	maxLen := h.EnvInt("VERIF_C09_SEQ_LEN", 2)
+	al := Alphabet()
+	styles := []string{"csv", "markdown", "utf8-heavy", "none", "json"}
+	shard, shards := h.Shard()
+	var evals int64
+	idx := 0
+	var rec func(prefix []gen.Op, depth int)
+	rec = func(prefix []gen.Op, depth int) {
+		idx++
+		if idx%shards == shard {
+			ops := make([]gen.Op, len(prefix))
+			copy(ops, prefix)
+			nt, classes := Facts(gen.Script{Ops: ops})
+			for _, a := range styles {
+				for _, b := range styles {
+					for _, d := range styles {
+						c := Case{Script: gen.Script{Ops: ops}, Seq: []RenderAt{{At: len(ops), Style: a, Reuse: true}, {At: len(ops), Style: b, Reuse: true}, {At: len(ops), Style: d, Reuse: true}}}
+						evals++
+						ev.R().EvalEnum(nil, nt || true, classes...)
+						if v := ev.Guard(func() *ev.Violation { return CheckCase(c) }); v != nil {
+							ev.R().Fail(ID, c, v)
+							t.Fatalf("VIOLATION %s: %s", ID, firstLine(v.Msg))
+						}
+					}
+				}
+			}
+		}
+		if depth == maxLen {
+			return
+		}
+		for _, sym := range al {
+			rec(append(prefix, sym...), depth+1)
+		}
+	}
+	rec(nil, 0)
+	ev.R().Sub(ev.SubRun{Name: "render-triples-on-one-table", Bound: fmt.Sprintf("every history of 0..%d symbols x every ordered triple over %d styles, rendered one after the other on the same table through reused wrappers", maxLen, len(styles)), Cases: evals, Exhaustive: true})
+}
+
 // Alphabet of the exhaustive enumeration: each symbol is one or more operations.
 func Alphabet() [][]gen.Op {
 	s := gen.S
